@@ -51,6 +51,9 @@ class PSock(simnet.SimSocket):
 
     def recv(self, n):
         self.net.ops.append(("recv", n))
+        if self.tunnel_phase and not self.net.tunnel_up and getattr(self.net, "poke", None):
+            # another thread of the application tries to send while the connecting thread waits for the proxy
+            self.net.poke()
         if not self.script:
             raise simnet.Blocked()
         st = self.script.pop(0)
@@ -118,6 +121,15 @@ def run_case(sc):
     escaped = None
     try:
         ws = W.WebSocket(sc["url"], proxies=sc["proxies"])
+        if sc.get("poke"):
+            def poke():
+                for name, args in (("send_text", (u"early",)), ("send_binary", (b"e",)), ("send_ping", (b"",)), ("send_pong", (b"",))):
+                    try:
+                        getattr(ws, name)(*args)
+                        net.ops.append(("poke", name, None))
+                    except Exception as e:
+                        net.ops.append(("poke", name, type(e).__name__))
+            net.poke = poke
         try:
             for ev in ws.connect(session_class=Sess):
                 if ev.name == "connected":
@@ -208,6 +220,8 @@ def gen(rnd):
         script = [("data", b"HTTP/1.1 200 OK\r\n\r\n")]
         expect = "fail"
     sc["proxy_script"] = script
+    if rnd.random() < 0.4:
+        sc["poke"] = True
     sc["_direct"] = direct
     if direct:
         expect = "direct"
@@ -258,6 +272,9 @@ def oracle(sc, events, ops, escaped):
             cred = (user if pw is None else "%s:%s" % (user, pw)).encode()
             if base64.standard_b64encode(cred) not in first:
                 out.append("proxy credentials missing from the CONNECT request")
+    for o in ops:
+        if o[0] == "poke" and o[2] is None:
+            out.append("%s() called by another thread while the proxy negotiation was in progress was accepted (it must raise: there is no websocket connection yet)" % o[1])
     if sc["_expect"] == "tunnel":
         if "connected" not in names:
             out.append("the proxy answered 200 but Connected was not yielded (events %s)" % names)
